@@ -84,6 +84,15 @@ func NewSparseFile(name string, idx Index, s Store, opt SparseFileOptions) (*Spa
 		}
 	}
 
+	// The sparse file is about to be (re-)initialized. A state file left over from an
+	// earlier incarnation of it no longer describes it and must not be picked up by a
+	// later start, replace it with the blank state before touching the file: whatever
+	// goes wrong from here on (or if we're interrupted), the state on disk never claims
+	// more than what the file holds.
+	if err := sf.WriteState(); err != nil {
+		return nil, err
+	}
+
 	// Create the new file at full size, that was we can skip loading null-chunks,
 	// this should be a NOP if the file matches the index size already.
 	if err = f.Truncate(idx.Length()); err != nil {
@@ -102,13 +111,6 @@ func NewSparseFile(name string, idx Index, s Store, opt SparseFileOptions) (*Spa
 		if err := loader.preloadChunksFromState(initFile, opt.StateInitConcurrency); err != nil {
 			return nil, err
 		}
-	}
-
-	// The sparse file was just (re-)initialized. A state file left over from an
-	// earlier incarnation of it no longer describes it and must not be picked up
-	// by a later start, replace it with the current (blank) state.
-	if err := sf.WriteState(); err != nil {
-		return nil, err
 	}
 
 	return sf, nil
